@@ -36,7 +36,8 @@ import QV.Lemmas.MetricsSpectrum
 import QV.Props.C01
 
 namespace QV.Props
-open QV Finset Metrics
+namespace C10
+open QV QV.C10L Finset Metrics
 
 /-! ## Specifications -/
 
@@ -857,4 +858,5 @@ theorem C10_kl_self_zero_rbm (ε : ℝ) (d : Char → M2 ℝ) (am ph : RBM ℝ n
 
 end rbm
 
+end C10
 end QV.Props
